@@ -3,7 +3,7 @@
    summary that was folded, and the zoom levels.  The zoom part enters through four hypotheses
    (directory entries in range, at most 10 strictly increasing levels, every level decodes, the
    levels' regions follow the main index in order), discharged for the two writers in part 3. *)
-From BT Require Import Base.Util Base.LE Base.Float Generated.Consts Model.RTree Model.BBIFile Model.BigWigWrite
+From BT Require Import Base.Util Base.LE Base.Float Generated.Consts Model.RTree Model.BBIFile Model.BigWigWrite Model.BigWigWriteZ
   Proofs.Chunks Proofs.BigWigQuery Proofs.RTreeAbs Proofs.RTreeBuild Proofs.RTreeCodec Proofs.FileRegions
   Proofs.BigWigFile Proofs.BigWigFileChroms Proofs.BigWigFileData Proofs.BigWigValues Proofs.BigWigFileRoundTrip
   Proofs.ZoomBwLevels Proofs.RTreeShape
@@ -35,13 +35,129 @@ Definition zoom_regions (zl : list zoom_entry) : list (N * N) := flat_map (fun z
 Definition zoom_content (zl : list zoom_entry) : list (N * list fzrec) :=
   map (fun z => (fst (fst (fst z)), snd (fst (fst z)))) zl.
 
+
+(* ---------- the written file, described by its parts (blocks possibly compressed) ---------- *)
+(* [wdata]: the data sections as written; [ubuf]: the header's uncompress_buf_size.  This is C01's
+   [assembled] without the zoom writer, with the buffer size as a parameter. *)
+Definition zassembled (o : opts) (sizes : list (name * N)) (chroms : idmap) (sum : summary) (wdata : list sdata) (ubuf : N)
+           (bs : list N) (p : file_parts) : Prop :=
+  let ds := Nlen (data_bytes wdata) in
+  chrom_tree_bytes sizes chroms = Ok (fp_ct p)
+  /\ write_index (o_bs o) (o_ips o) (352 + ds + Nlen (fp_ct p)) (place 352 wdata) = Ok (fp_ix p, fp_levels p)
+  /\ bs = fp_pre p ++ data_bytes wdata ++ fp_ct p ++ fp_ix p ++ fp_zbytes p ++ u32 BIGWIG_MAGIC
+  /\ Nlen (fp_pre p) = 352
+  /\ has_at (fp_pre p) 0
+       (header_bytes BIGWIG_MAGIC (Nlen (fp_zhdrs p)) (352 + ds) 344 (352 + ds + Nlen (fp_ct p)) 0 0 0 304 ubuf
+        ++ flat_map zoom_header_bytes (fp_zhdrs p))
+  /\ has_at (fp_pre p) 304 (summary_bytes sum)
+  /\ has_at (fp_pre p) 344 (u64 (Nlen wdata)).
+
+Lemma assembled_zassembled o sizes chroms sum data zoom_part bs p :
+  assembled o BIGWIG_MAGIC sizes chroms sum data bw_pre 0 0 0 zoom_part (fun k => k) bs p ->
+  zassembled o sizes chroms sum data 0 bs p.
+Proof.
+  intros (H1 & H2 & _ & H4 & H5 & H6 & H7 & H8). change (Nlen bw_pre) with 352 in *.
+  change (352 - 8) with 344 in *. change (352 - 48) with 304 in *. cbv beta in H8.
+  unfold zassembled. cbv zeta. repeat split; try assumption.
+  apply Nlen_eq_length in H5. rewrite H5. reflexivity.
+Qed.
+
+Section ZParts.
+Variables (o : opts) (sizes : list (name * N)) (chroms : idmap) (sum : summary) (wdata : list sdata) (ubuf : N)
+          (bs : list N) (p : file_parts).
+Hypothesis HZ : zassembled o sizes chroms sum wdata ubuf bs p.
+Let ds := Nlen (data_bytes wdata).
+
+Lemma zasm_in_pre off x : has_at (fp_pre p) off x -> has_at bs off x.
+Proof.
+  intros H. destruct HZ as (_ & _ & -> & _).
+  pose proof (has_at_inside (fp_pre p ++ data_bytes wdata ++ fp_ct p ++ fp_ix p ++ fp_zbytes p ++ u32 BIGWIG_MAGIC) 0 (fp_pre p) off x
+                (has_at_head _ _) H) as E. now rewrite N.add_0_l in E.
+Qed.
+Lemma zasm_data : has_at bs 352 (data_bytes wdata).
+Proof. destruct HZ as (_ & _ & -> & L & _). apply has_at_intro; exact L. Qed.
+Lemma zasm_ct : has_at bs (352 + ds) (fp_ct p).
+Proof.
+  destruct HZ as (_ & _ & -> & L & _). rewrite (app_assoc (fp_pre p)). apply has_at_intro. rewrite Nlen_app, L. reflexivity.
+Qed.
+Lemma zasm_ix : has_at bs (352 + ds + Nlen (fp_ct p)) (fp_ix p).
+Proof.
+  destruct HZ as (_ & _ & -> & L & _). rewrite (app_assoc (fp_pre p)), (app_assoc (fp_pre p ++ data_bytes wdata)).
+  apply has_at_intro. rewrite !Nlen_app, L. reflexivity.
+Qed.
+Lemma zasm_zooms : has_at bs (352 + ds + Nlen (fp_ct p) + Nlen (fp_ix p)) (fp_zbytes p).
+Proof.
+  destruct HZ as (_ & _ & -> & L & _).
+  rewrite (app_assoc (fp_pre p)), (app_assoc (fp_pre p ++ data_bytes wdata)), (app_assoc ((fp_pre p ++ data_bytes wdata) ++ fp_ct p)).
+  apply has_at_intro. rewrite !Nlen_app, L. reflexivity.
+Qed.
+Lemma zasm_Nlen : Nlen bs = 352 + ds + Nlen (fp_ct p) + Nlen (fp_ix p) + Nlen (fp_zbytes p) + 4.
+Proof. destruct HZ as (_ & _ & -> & L & _). rewrite !Nlen_app, L. fold ds. change (Nlen (u32 BIGWIG_MAGIC)) with 4. lia. Qed.
+Lemma zasm_placed : Forall2 (placed bs) (place 352 wdata) wdata.
+Proof. apply place_placed. exact zasm_data. Qed.
+End ZParts.
+
+
+(* assemble_z inverted into [zassembled] (cf. C01's assemble_inv) *)
+Lemma assemble_z_inv o sizes chroms sum wdata dub zoom_part bs :
+  assemble_z o BIGWIG_MAGIC sizes chroms sum wdata dub bw_pre 0 0 0 zoom_part (fun k => k) = Ok bs ->
+  (forall ds zp zb zh zu, zoom_part ds zp = Ok (zb, zh, zu) -> Nlen zh <= 10) ->
+  exists p zu,
+    zoom_part (Nlen (data_bytes wdata)) (352 + Nlen (data_bytes wdata) + Nlen (fp_ct p) + Nlen (fp_ix p)) = Ok (fp_zbytes p, fp_zhdrs p, zu)
+    /\ zassembled o sizes chroms sum wdata (N.max dub zu) bs p.
+Proof.
+  intros H Hzb. unfold assemble_z in H. cbv zeta in H. change (Nlen bw_pre) with 352 in H.
+  change (352 - 8) with 344 in H. change (352 - 48) with 304 in H.
+  destruct (chrom_tree_bytes sizes chroms) as [ct| | |] eqn:Ect; cbn [rbind] in H; try discriminate.
+  destruct (write_index (o_bs o) (o_ips o) (352 + Nlen (data_bytes wdata) + Nlen ct) (place 352 wdata))
+    as [[ix lv]| | |] eqn:Eix; cbn [rbind] in H; try discriminate.
+  destruct (zoom_part (Nlen (data_bytes wdata)) (352 + Nlen (data_bytes wdata) + Nlen ct + Nlen ix))
+    as [[[zb zh] zu]| | |] eqn:Ez; cbn [rbind] in H; try discriminate.
+  specialize (Hzb _ _ _ _ _ Ez). apply Ok_inj in H. rename H into Hbs.
+  set (ds := Nlen (data_bytes wdata)) in *.
+  set (hdr := header_bytes BIGWIG_MAGIC (Nlen zh) (352 + ds) 344 (352 + ds + Nlen ct) 0 0 0 304 (N.max dub zu)
+              ++ flat_map zoom_header_bytes zh) in *.
+  set (rest := data_bytes wdata ++ ct ++ ix ++ zb).
+  assert (Hhl : Nlen hdr = 64 + 24 * Nlen zh).
+  { unfold hdr, Nlen. rewrite app_length, header_bytes_length, zoom_dir_length. lia. }
+  assert (Hsl : Nlen (summary_bytes sum) = 40) by (unfold Nlen; now rewrite summary_bytes_length).
+  set (cnt := u64 (Nlen (place 352 wdata))) in *.
+  assert (Hcl : Nlen cnt = 8) by reflexivity.
+  assert (Hpl : Nlen bw_pre = 352) by reflexivity.
+  set (p1 := patch_at bw_pre 0 hdr).
+  set (p2 := patch_at p1 304 (summary_bytes sum)).
+  set (p3 := patch_at p2 344 cnt).
+  assert (L1 : Nlen p1 = 352) by (unfold p1; rewrite patch_at_Nlen; [exact Hpl|rewrite Hpl; lia]).
+  assert (L2 : Nlen p2 = 352) by (unfold p2; rewrite patch_at_Nlen; [exact L1|rewrite L1; lia]).
+  assert (L3 : Nlen p3 = 352) by (unfold p3; rewrite patch_at_Nlen; [exact L2|rewrite L2; lia]).
+  exists {| fp_pre := p3; fp_ct := ct; fp_ix := ix; fp_levels := lv; fp_zbytes := zb; fp_zhdrs := zh |}, zu.
+  cbn [fp_pre fp_ct fp_ix fp_levels fp_zbytes fp_zhdrs]. split; [exact Ez|].
+  unfold zassembled. cbv zeta. cbn [fp_pre fp_ct fp_ix fp_levels fp_zbytes fp_zhdrs]. fold ds hdr.
+  split; [exact Ect|]. split; [exact Eix|]. split; [|split; [exact L3|split; [|split]]].
+  - rewrite <- Hbs. replace (bw_pre ++ data_bytes wdata ++ ct ++ ix ++ zb) with (bw_pre ++ rest) by reflexivity.
+    rewrite (patch_at_app bw_pre rest 0 hdr) by (rewrite Hpl; lia). fold p1.
+    rewrite (patch_at_app p1 rest 304) by (rewrite L1; lia). fold p2.
+    rewrite (patch_at_app p2 rest 344) by (rewrite L2; lia). fold p3.
+    unfold rest. now rewrite <- !app_assoc.
+  - unfold p3. apply patch_at_keeps_before; [|lia]. unfold p2. apply patch_at_keeps_before; [|lia].
+    unfold p1. apply patch_at_has. rewrite Hpl. lia.
+  - unfold p3. apply patch_at_keeps_before; [|lia]. unfold p2. apply patch_at_has. rewrite L1. lia.
+  - rewrite <- (place_Nlen 352 wdata). fold cnt. unfold p3. apply patch_at_has. rewrite L2, Hcl. lia.
+Qed.
+
 Section WholeFile.
 Variables (fp : fpmode) (o : opts) (sizes : list (name * N)) (inp : list item).
 Variables (ids : idmap) (outs : list chrom_out) (sum : summary) (data : list sdata).
-Variables (zoom_part : N -> N -> res (list N * list zoom_header)) (bs : list N) (p : file_parts).
+Variables (bs : list N) (p : file_parts).
 Variables (strict : bool) (inflate : N -> N -> option (list N)).
+(* blocks: compressed with [compress] when [cz]; [ubuf] is the advertised buffer size *)
+Variables (compress : list N -> list N) (cz : bool) (ubuf : N).
 Hypothesis Hcol : bw_collect fp o sizes inp = Ok (ids, outs, sum, data).
-Hypothesis HA : assembled o BIGWIG_MAGIC sizes ids sum data bw_pre 0 0 0 zoom_part (fun k => k) bs p.
+Hypothesis HA : zassembled o sizes ids sum (map (zsec compress cz) data) ubuf bs p.
+Hypothesis Hmode : blk_mode cz ubuf.
+Hypothesis Hubuf : ubuf < W32.
+Hypothesis Hcne : forall b, compress b <> [].
+Hypothesis Hinf : cz = true -> inflate_ok compress bs inflate /\ Forall (fun d => Nlen (sd_bytes d) <= ubuf) data.
 Hypothesis Hopts : opts_ok o.
 Hypothesis Hinp : input_ok sizes inp.
 Hypothesis Hsize : Nlen bs < U64.
@@ -50,7 +166,8 @@ Hypothesis Hstrict : strict = true -> names_increasing (map fst (runs inp)).
 
 Let names := map fst (runs inp).
 Let n := Nlen bs.
-Let ds := Nlen (data_bytes data).
+Let wdata := map (zsec compress cz) data.
+Let ds := Nlen (data_bytes wdata).
 Let ctl := Nlen (fp_ct p).
 Let ixl := Nlen (fp_ix p).
 Let zpos := 352 + ds + ctl + ixl.
@@ -63,14 +180,14 @@ Variable zl : list zoom_entry.
 Hypothesis Hz_hdrs : Forall zh_ok (fp_zhdrs p).
 Hypothesis Hz_count : Nlen (fp_zhdrs p) <= 10.
 Hypothesis Hz_levels : inc_from 0 (map zh_res (fp_zhdrs p)).
-Hypothesis Hz_decode : omap (zoom_level bs n false inflate true chroms 0) (map zh_view (fp_zhdrs p)) = Some zl.
+Hypothesis Hz_decode : omap (zoom_level bs n false inflate true chroms ubuf) (map zh_view (fp_zhdrs p)) = Some zl.
 Hypothesis Hz_regions : reg_chain zpos (zoom_regions zl) /\ chain_end zpos (zoom_regions zl) <= n - 4.
 
 Lemma wf_pd : Nlen bw_pre = 352.
 Proof. reflexivity. Qed.
 
 Lemma wf_len : n = 352 + ds + ctl + ixl + Nlen (fp_zbytes p) + 4.
-Proof. exact (core_Nlen _ _ _ _ _ _ _ _ _ HA). Qed.
+Proof. exact (zasm_Nlen _ _ _ _ _ _ _ _ HA). Qed.
 
 Lemma wf_ids : ids = number 0 names.
 Proof. now destruct (core_runs _ _ _ _ _ _ _ _ Hcol) as (E & _). Qed.
@@ -90,13 +207,12 @@ Proof.
 Qed.
 
 (* ---------- skeleton ---------- *)
-Lemma wf_header_at : has_at bs 0 (header_bytes BIGWIG_MAGIC (Nlen (fp_zhdrs p)) (352 + ds) 344 (352 + ds + ctl) 0 0 0 304 0)
+Lemma wf_header_at : has_at bs 0 (header_bytes BIGWIG_MAGIC (Nlen (fp_zhdrs p)) (352 + ds) 344 (352 + ds + ctl) 0 0 0 304 ubuf)
   /\ has_at bs 64 (flat_map zoom_header_bytes (fp_zhdrs p)).
 Proof.
-  pose proof (asm_header _ _ _ _ _ _ _ _ _ _ _ _ _ _ HA) as H. cbv zeta in H. rewrite wf_pd in H.
-  change (352 - 8) with 344 in H. change (352 - 48) with 304 in H.
+  pose proof HA as (_ & _ & _ & _ & H & _). apply (zasm_in_pre _ _ _ _ _ _ _ _ HA) in H. fold wdata ds ctl in H.
   apply has_at_app in H as [H1 H2]. split; [exact H1|].
-  replace 64 with (0 + Nlen (header_bytes BIGWIG_MAGIC (Nlen (fp_zhdrs p)) (352 + ds) 344 (352 + ds + ctl) 0 0 0 304 0)); [exact H2|].
+  replace 64 with (0 + Nlen (header_bytes BIGWIG_MAGIC (Nlen (fp_zhdrs p)) (352 + ds) 344 (352 + ds + ctl) 0 0 0 304 ubuf)); [exact H2|].
   unfold Nlen. now rewrite header_bytes_length.
 Qed.
 
@@ -109,10 +225,10 @@ Qed.
 
 Lemma wf_parse_header : parse_header bs n false =
   Some {| fh_version := 4; fh_nzoom := Nlen (fp_zhdrs p); fh_ctoff := 352 + ds; fh_dataoff := 344; fh_ixoff := 352 + ds + ctl;
-          fh_fc := 0; fh_dfc := 0; fh_asql := 0; fh_sumoff := 304; fh_ubuf := 0; fh_ext := 0 |}.
+          fh_fc := 0; fh_dfc := 0; fh_asql := 0; fh_sumoff := 304; fh_ubuf := ubuf; fh_ext := 0 |}.
 Proof.
   destruct wf_header_at as [H _]. pose proof wf_len as L. unfold U64 in Hsize. fold n in Hsize.
-  apply (parse_header_ok bs n _ _ _ _ _ _ _ _ _ _ H eq_refl); unfold W16, W32, W64; lia.
+  apply (parse_header_ok bs n _ _ _ _ _ _ _ _ _ _ H eq_refl); unfold W16, W32, W64 in *; lia.
 Qed.
 
 Lemma wf_names_ok : Forall (fun c : name * N => name_ok (fst c) /\ Nlen (fst c) < W32 /\ size_of sizes c < W32) ids.
@@ -126,7 +242,7 @@ Qed.
 
 Lemma wf_chrom_tree : parse_chrom_tree bs n false strict (352 + ds) = Some (chroms, 352 + ds + ctl).
 Proof.
-  destruct HA as (Hct & _). pose proof (asm_ct _ _ _ _ _ _ _ _ _ _ _ _ _ _ HA) as Hat. cbv zeta in Hat. rewrite wf_pd in Hat.
+  destruct HA as (Hct & _). pose proof (zasm_ct _ _ _ _ _ _ _ _ HA) as Hat. fold wdata ds in Hat.
   destruct Hinp as (_ & Hcnt & _).
   destruct (parse_chrom_tree_ok bs n (352 + ds) sizes ids (fp_ct p) strict Hct Hat eq_refl) as [H _].
   - rewrite wf_ids. pose proof wf_inp_ne. destruct names; [congruence|discriminate].
@@ -138,7 +254,7 @@ Proof.
 Qed.
 
 (* the sections of the main index *)
-Let secs := place 352 data.
+Let secs := place 352 wdata.
 
 Lemma wf_pieces_ok : Forall piece_ok pieces.
 Proof. exact (core_pieces_ok _ _ _ _ _ _ _ _ bs Hcol Hopts Hinp Hsize). Qed.
@@ -153,20 +269,38 @@ Proof.
   pose proof (chunks_nil_iff ips (co_vals c)) as Hn. destruct (chunks ips (co_vals c)); [exfalso; apply Hrn; now apply Hn|discriminate].
 Qed.
 
+Lemma wf_wdata_spans : map sect_span secs = map pspan pieces.
+Proof.
+  unfold secs, wdata. rewrite place_spans, wf_data, !map_map. apply map_ext. intros pc.
+  destruct (zsec_spans compress cz (psec pc)) as (-> & -> & ->). reflexivity.
+Qed.
+
 Lemma wf_secs_sorted : sorted_starts (map sect_span secs).
 Proof.
-  unfold secs. rewrite wf_data, place_pieces_spans. destruct wf_ips as [Hi _].
+  rewrite wf_wdata_spans. destruct wf_ips as [Hi _].
   exact (pieces_sorted ips Hi outs (core_ids_sorted _ _ _ _ _ _ _ _ Hcol) (core_wf _ _ _ _ _ _ _ _ Hcol)).
+Qed.
+
+Lemma wf_placed : Forall2 (placed bs) secs wdata.
+Proof. exact (zasm_placed _ _ _ _ _ _ _ _ HA). Qed.
+
+(* the placed sections with the pieces they hold *)
+Lemma wf_placed_pieces : Forall2 (fun s pc => placed bs s (zsec compress cz (psec pc))) secs pieces.
+Proof.
+  pose proof wf_placed as H. unfold wdata in H. rewrite wf_data, map_map in H.
+  clear - H. revert H. generalize secs. induction pieces as [|pc l IH]; intros ss H; inversion H; subst; constructor; auto.
 Qed.
 
 Lemma wf_secs_ok : Forall sect_ok secs.
 Proof.
-  unfold secs. rewrite wf_data. apply (placed_sect_ok n); [exact Hsize|exact wf_pieces_ok|].
-  pose proof wf_len as L. rewrite <- wf_data. fold ds. lia.
+  pose proof (place_bounds wdata 352) as Hb. fold secs ds in Hb. pose proof wf_len as L.
+  pose proof wf_placed_pieces as Hpl. pose proof wf_pieces_ok as Hok.
+  apply Forall_forall. intros s Hs. rewrite Forall_forall in Hb. destruct (Hb s Hs) as [B1 B2].
+  destruct (Forall2_in_l _ _ _ _ Hpl Hs) as [pc [Hpc (_ & _ & Hc & Hst & Hen)]].
+  destruct (zsec_spans compress cz (psec pc)) as (Z1 & Z2 & Z3). rewrite Z1 in Hc. rewrite Z2 in Hst. rewrite Z3 in Hen.
+  rewrite Forall_forall in Hok. destruct (psec_fields_ok pc (Hok pc Hpc)) as (F1 & F2 & F3).
+  unfold sect_ok. rewrite Hc, Hst, Hen. unfold U64 in *. fold n in Hsize. repeat split; try assumption; lia.
 Qed.
-
-Lemma wf_placed : Forall2 (placed bs) secs data.
-Proof. pose proof (asm_placed _ _ _ _ _ _ _ _ _ _ _ _ _ _ HA) as H. cbv zeta in H. now rewrite wf_pd in H. Qed.
 
 (* each chromosome the writer processed: its values are well formed for its length, and the decoder's
    chromosome table gives that length for its id *)
@@ -204,19 +338,24 @@ Proof.
   - pose proof (chunks_len_bound ips (co_vals c) ch Hi Hch). unfold Nlen. lia.
 Qed.
 
+Lemma wf_wdata_ne : wdata <> [].
+Proof. unfold wdata. rewrite wf_data. intros E. apply map_eq_nil in E. apply map_eq_nil in E. exact (wf_pieces_ne E). Qed.
+
 Lemma wf_secs_range : Forall (fun s => 352 <= s_off s /\ s_off s + s_size s <= 352 + ds + ctl /\ 1 <= s_size s /\ s_start s <= s_end s) secs.
 Proof.
-  pose proof (place_bounds data 352) as Hb. fold secs ds in Hb.
-  pose proof wf_placed as Hpl. rewrite wf_data in Hpl.
+  pose proof (place_bounds wdata 352) as Hb. fold secs ds in Hb.
+  pose proof wf_placed_pieces as Hpl.
   apply Forall_forall. intros s Hs. rewrite Forall_forall in Hb. destruct (Hb s Hs) as [B1 B2].
-  destruct (Forall2_in_l _ _ _ _ Hpl Hs) as [d [Hd (Hat & Hsz & Hc & Hst & Hen)]].
-  apply in_map_iff in Hd as [pc [<- Hpc]].
+  destruct (Forall2_in_l _ _ _ _ Hpl Hs) as [pc [Hpc (Hat & Hsz & Hc & Hst & Hen)]].
+  destruct (zsec_spans compress cz (psec pc)) as (Z1 & Z2 & Z3). rewrite Z2 in Hst. rewrite Z3 in Hen.
   pose proof wf_pieces_ok as Hok. rewrite Forall_forall in Hok. destruct (Hok pc Hpc) as (Hne & Hl16 & Hid & Hvok).
   destruct (wf_piece_chrom pc Hpc) as (len & Hwf & _ & _).
   destruct pc as [id items]. cbn [fst snd] in *. destruct items as [|f r]; [congruence|].
   repeat split; try lia.
-  - rewrite Hsz. unfold psec, section_of. cbn [fst snd sd_bytes]. rewrite Nlen_app. unfold sec_hdr, Nlen, u8, u16, u32.
-    rewrite !app_length, !enc_le_length. lia.
+  - rewrite Hsz. destruct cz; cbn [zsec sd_bytes].
+    + specialize (Hcne (sd_bytes (psec (id, f :: r)))). destruct (compress _); [congruence|]. rewrite Nlen_cons. lia.
+    + unfold psec, section_of. cbn [fst snd sd_bytes]. rewrite Nlen_app. unfold sec_hdr, Nlen, u8, u16, u32.
+      rewrite !app_length, !enc_le_length. lia.
   - rewrite Hst, Hen. unfold psec, section_of. cbn [fst snd sd_start sd_end].
     pose proof (wf_last_end len f r f Hwf (or_introl eq_refl)). destruct (wf_head _ _ _ Hwf). lia.
 Qed.
@@ -224,16 +363,16 @@ Qed.
 Lemma wf_index : exists h e, parse_index bs n false (352 + ds + ctl) 352 (352 + ds + ctl) = Some (h, map lf_of secs, e)
   /\ ih_block h = o_bs o /\ ih_ips h = o_ips o /\ ih_count h = Nlen secs /\ 352 + ds + ctl + 48 <= e <= 352 + ds + ctl + ixl.
 Proof.
-  destruct HA as (_ & Hix & _). rewrite wf_pd in Hix. fold ds ctl secs in Hix.
-  pose proof (asm_ix _ _ _ _ _ _ _ _ _ _ _ _ _ _ HA) as Hat. cbv zeta in Hat. rewrite wf_pd in Hat. fold ds ctl in Hat.
+  pose proof HA as (_ & Hix & _). fold wdata ds ctl secs in Hix.
+  pose proof (zasm_ix _ _ _ _ _ _ _ _ HA) as Hat. fold wdata ds ctl in Hat.
   destruct Hopts as (Hb & Hi).
   apply (parse_index_ok bs n _ 352 _ (o_bs o) (o_ips o) secs (fp_ix p) (fp_levels p) Hix Hat eq_refl Hsize Hb).
   - unfold W32. lia.
-  - unfold secs. rewrite wf_data. intros E. apply place_nil_iff in E. apply map_eq_nil in E. exact (wf_pieces_ne E).
+  - unfold secs. intros E. apply place_nil_iff in E. exact (wf_wdata_ne E).
   - exact wf_secs_sorted.
   - exact wf_secs_ok.
   - unfold secs. rewrite place_Nlen. pose proof wf_len as L.
-    assert (Nlen data <= ds); [|lia]. apply (place_count data 352). fold secs.
+    assert (Nlen wdata <= ds); [|lia]. apply (place_count wdata 352). fold secs.
     eapply Forall_impl; [|exact wf_secs_range]. intros s (_ & _ & H & _). exact H.
   - eapply Forall_impl; [|exact wf_secs_range]. intros s (H1 & H2 & H3 & H4). repeat split; assumption.
   - apply place_offs_chain.
@@ -241,8 +380,8 @@ Qed.
 
 Lemma wf_magic_at : has_at bs (n - 4) (u32 BIGWIG_MAGIC).
 Proof.
-  destruct HA as (_ & _ & _ & E & _).
-  exists (fp_pre p ++ data_bytes data ++ fp_ct p ++ fp_ix p ++ fp_zbytes p), []. split.
+  destruct HA as (_ & _ & E & _). fold wdata in E.
+  exists (fp_pre p ++ data_bytes wdata ++ fp_ct p ++ fp_ix p ++ fp_zbytes p), []. split.
   - rewrite app_nil_r, E, <- !app_assoc. reflexivity.
   - unfold n. rewrite E. rewrite !app_length. unfold Nlen. rewrite !app_length. cbn [u32 enc_le length]. lia.
 Qed.
@@ -252,8 +391,8 @@ Lemma wf_data_end : match map lf_of secs with
                     | l :: r => let z := last r l in fl_off z + fl_size z
                     end = 352 + ds.
 Proof.
-  assert (Hne : data <> []) by (rewrite wf_data; intros E; apply map_eq_nil in E; exact (wf_pieces_ne E)).
-  pose proof (place_last_end data 352 {| s_chrom := 0; s_start := 0; s_end := 0; s_off := 0; s_size := 0 |} Hne) as H.
+  pose proof wf_wdata_ne as Hne.
+  pose proof (place_last_end wdata 352 {| s_chrom := 0; s_start := 0; s_end := 0; s_off := 0; s_size := 0 |} Hne) as H.
   fold secs ds in H. destruct secs as [|s r] eqn:Es.
   - exfalso. apply place_nil_iff in Es. exact (Hne Es).
   - cbn [map]. cbv zeta. rewrite last_cons in H.
@@ -262,7 +401,7 @@ Qed.
 
 Definition the_header : fheader :=
   {| fh_version := 4; fh_nzoom := Nlen (fp_zhdrs p); fh_ctoff := 352 + ds; fh_dataoff := 344; fh_ixoff := 352 + ds + ctl;
-     fh_fc := 0; fh_dfc := 0; fh_asql := 0; fh_sumoff := 304; fh_ubuf := 0; fh_ext := 0 |}.
+     fh_fc := 0; fh_dfc := 0; fh_asql := 0; fh_sumoff := 304; fh_ubuf := ubuf; fh_ext := 0 |}.
 
 Theorem wf_skeleton : exists ih e,
   parse_skeleton bs n false strict true =
@@ -281,14 +420,14 @@ Proof.
   rewrite (parse_zoomhdrs_ok bs n (fp_zhdrs p) Hzh eq_refl Hz_hdrs). cbn [obind].
   rewrite check_true by reflexivity.
   change (read_autosql bs n 0 304) with (Some (@nil N, 0)). cbn [obind].
-  pose proof (asm_summary _ _ _ _ _ _ _ _ _ _ _ _ _ _ HA) as Hsum. cbv zeta in Hsum. rewrite wf_pd in Hsum. change (352 - 48) with 304 in Hsum.
+  pose proof HA as (_ & _ & _ & _ & _ & Hsum & Hcnt). apply (zasm_in_pre _ _ _ _ _ _ _ _ HA) in Hsum. apply (zasm_in_pre _ _ _ _ _ _ _ _ HA) in Hcnt.
+  fold wdata in Hcnt. assert (Ewd : Nlen wdata = Nlen data) by (unfold wdata, Nlen; now rewrite map_length). rewrite Ewd in Hcnt.
   rewrite (parse_summary_mod bs n 304 sum Hsum eq_refl). cbn [obind].
   rewrite wf_chrom_tree. cbn [obind].
-  pose proof (asm_count _ _ _ _ _ _ _ _ _ _ _ _ _ _ HA) as Hcnt. cbv zeta beta in Hcnt. rewrite wf_pd in Hcnt. change (352 - 8) with 344 in Hcnt.
   rewrite (bytes_at_has_w bs n 344 (u64 (Nlen data)) 8 Hcnt eq_refl eq_refl). cbn [obind].
   assert (Hcv : fld false (u64 (Nlen data)) 0 8 = Nlen data).
   { rewrite <- (app_nil_r (u64 (Nlen data))). unfold u64. apply fld_enc.
-    assert (Nlen data <= ds); [|cbn; lia]. apply (place_count data 352). fold secs.
+    assert (Nlen data <= ds); [|cbn; lia]. rewrite <- Ewd. apply (place_count wdata 352). fold secs.
     eapply Forall_impl; [|exact wf_secs_range]. intros s (_ & _ & H & _). exact H. }
   rewrite Hcv.
   rewrite check_true by (apply N.leb_le; lia).
@@ -304,23 +443,29 @@ Proof.
 Qed.
 
 (* ---------- blocks ---------- *)
-Lemma wf_blocks : omap (data_block bs n false inflate true chroms 0 (o_ips o)) (map lf_of secs) = Some (map piece_recs pieces).
+Lemma wf_blocks : omap (data_block bs n false inflate true chroms ubuf (o_ips o)) (map lf_of secs) = Some (map piece_recs pieces).
 Proof.
-  pose proof wf_placed as Hpl. rewrite wf_data in Hpl.
-  assert (G : forall ss pcs, Forall2 (placed bs) ss (map psec pcs) -> (forall pc, In pc pcs -> In pc pieces) ->
-              omap (data_block bs n false inflate true chroms 0 (o_ips o)) (map lf_of ss) = Some (map piece_recs pcs)).
+  pose proof wf_placed_pieces as Hpl.
+  assert (G : forall ss pcs, Forall2 (fun s pc => placed bs s (zsec compress cz (psec pc))) ss pcs -> (forall pc, In pc pcs -> In pc pieces) ->
+              omap (data_block bs n false inflate true chroms ubuf (o_ips o)) (map lf_of ss) = Some (map piece_recs pcs)).
   { intros ss pcs. revert ss. induction pcs as [|pc pcs IH]; intros ss HF Hsub; inversion HF as [|s d ss' ds' Hsd HF']; subst; [reflexivity|].
     cbn [map omap].
     destruct (wf_piece_chrom pc (Hsub pc (or_introl eq_refl))) as (len & Hwf & Hcs & Hl).
     pose proof wf_pieces_ok as Hok. rewrite Forall_forall in Hok.
-    rewrite (data_block_ok bs n inflate chroms (o_ips o) pc s len eq_refl Hsd (Hok pc (Hsub pc (or_introl eq_refl))) Hwf Hcs Hl).
-    cbn [obind]. rewrite (IH ss' HF') by (intros x Hx; apply Hsub; now right). reflexivity. }
+    rewrite (data_block_c compress cz bs n inflate chroms ubuf (o_ips o) pc s len eq_refl Hsd Hmode).
+    - cbn [obind]. rewrite (IH ss' HF') by (intros x Hx; apply Hsub; now right). reflexivity.
+    - intros Ec. destruct (Hinf Ec) as [Hi Hu]. split; [exact Hi|]. rewrite Forall_forall in Hu. apply Hu.
+      rewrite wf_data. apply in_map. apply Hsub. now left.
+    - exact (Hok pc (Hsub pc (or_introl eq_refl))).
+    - exact Hwf.
+    - exact Hcs.
+    - exact Hl. }
   apply G; [exact Hpl|auto].
 Qed.
 
 Definition the_content (ih : findexhdr) : content :=
   {| c_bigwig := true; c_bigendian := false; c_field_count := 0; c_defined_fc := 0; c_autosql := [];
-     c_ubuf := 0; c_block_size := o_bs o; c_ips := o_ips o; c_chroms := chroms; c_records := recs_of outs;
+     c_ubuf := ubuf; c_block_size := o_bs o; c_ips := o_ips o; c_chroms := chroms; c_records := recs_of outs;
      c_blocks := map (fun pc : piece => Nlen (snd pc)) pieces; c_data_count := Nlen data;
      c_summary := sum_view_mod sum; c_zooms := zoom_content zl |}.
 
